@@ -190,7 +190,7 @@ def pmap(module, tasks, timeout=60, nproc=None, env=None):
             if w is None or not w.alive():
                 w = _Worker(module, env)
             results[i] = w.call(t, timeout)
-            if results[i].get("_unsent"):      # the worker had retired itself: ask a fresh one
+            if results[i].get("_crashed"):     # the worker had retired itself (or died): ask a fresh one, once
                 w = _Worker(module, env)
                 results[i] = w.call(t, timeout)
         if w is not None:
